@@ -52,6 +52,11 @@ def hostWithoutPort (u : URL) : Bytes :=
 
 def clearURLPort (u : URL) : URL := { u with host := hostWithoutPort u }
 
+/-- `validHostColons` -/
+def validHostColons (u : URL) : Bool :=
+  let h := hostWithoutPort u
+  hasPrefix h [91] || !h.contains 58
+
 /-- `cleanPath` -/
 def cleanPath (p proto : Bytes) : Bytes :=
   let p := if !hasPrefix p [47] && (isSpecialProtocol proto || p != []) then 47 :: p else p
@@ -84,6 +89,7 @@ def fixURL (u : URL) : Except Err URL := do
 /-- `normalizeURL` -/
 def normalizeURL (u : URL) : Except Err URL := do
   if isSpecialNetProtocol u.scheme && u.host == [] && u.path == [] then throw Err.invalidURL
+  if !validHostColons u then throw Err.invalidURL
   let u :=
     if u.port != [] then
       match atoi u.port with
@@ -118,6 +124,7 @@ def validHost (scheme host : Bytes) : Except Err Bool :=
   | none => pure false
   | some p =>
     if p.host != host || p.user.isSome || p.path != [] || p.rawQuery != [] || p.fragment != [] then pure false
+    else if !validHostColons p then pure false
     else do
       let idnOk ←
         if isSpecialNetProtocol scheme then
@@ -257,7 +264,12 @@ def step (st : St) : Op → Except Err St
     let s := toLowerAscii s
     if isSpecialProtocol st.url.scheme == isSpecialProtocol s
         && (ParseRequestURI (s ++ [58, 47, 47] ++ st.url.host)).isSome then
-      pure { st with url := dropDefaultPort { st.url with scheme := s } }
+      let hostOk ← if isSpecialNetProtocol s then
+          (if st.url.opaq == [] then validHost s st.url.host else pure false) else pure true
+      if hostOk then
+        let u ← fixURL { st.url with scheme := s }
+        pure { st with url := dropDefaultPort u }
+      else pure st
     else pure st
   | .set .search v =>
     let u := fixRawQuery { st.url with rawQuery := trimPrefix v [63] }
